@@ -9,6 +9,8 @@ N3  not (a OP b)                  ->  a COMPLEMENT(OP) b        (==, !=, <, <=, 
 N4  x = x + e / x = x - e         ->  x += e / x -= e
 N5  if c: x = a else: x = b       ->  x = a if c else b         (same single target in both branches)
 N6  a if not c else b             ->  b if c else a
+N7  if a NEG b: A else: B         ->  if a POS b: B else: A    (NEG in !=, is not, not in, >=, <=; plain else only; also for
+                                      conditional expressions) - one polarity per two-way decision
 Positions (lineno/col_offset) of the rewritten nodes are kept for reporting.
 """
 from __future__ import annotations
@@ -16,6 +18,7 @@ from __future__ import annotations
 import ast
 
 _MIRROR = {ast.Lt: ast.Gt, ast.Gt: ast.Lt, ast.LtE: ast.GtE, ast.GtE: ast.LtE, ast.Eq: ast.Eq, ast.NotEq: ast.NotEq}
+_NEGATIVE = (ast.NotEq, ast.IsNot, ast.NotIn, ast.GtE, ast.LtE)
 _COMPLEMENT = {ast.Lt: ast.GtE, ast.GtE: ast.Lt, ast.Gt: ast.LtE, ast.LtE: ast.Gt, ast.Eq: ast.NotEq, ast.NotEq: ast.Eq, ast.Is: ast.IsNot, ast.IsNot: ast.Is, ast.In: ast.NotIn, ast.NotIn: ast.In}
 
 
@@ -24,6 +27,14 @@ def _text(n):
         return ast.unparse(n)
     except Exception:  # noqa: BLE001
         return ast.dump(n)
+
+
+def _negative(test):
+    return isinstance(test, ast.Compare) and len(test.ops) == 1 and isinstance(test.ops[0], _NEGATIVE)
+
+
+def _complement(test):
+    return ast.copy_location(ast.Compare(left=test.left, ops=[_COMPLEMENT[type(test.ops[0])]()], comparators=test.comparators), test)
 
 
 class Normaliser(ast.NodeTransformer):
@@ -59,7 +70,9 @@ class Normaliser(ast.NodeTransformer):
     def visit_IfExp(self, node):
         self.generic_visit(node)
         if isinstance(node.test, ast.UnaryOp) and isinstance(node.test.op, ast.Not):
-            return ast.copy_location(ast.IfExp(test=node.test.operand, body=node.orelse, orelse=node.body), node)
+            node = ast.copy_location(ast.IfExp(test=node.test.operand, body=node.orelse, orelse=node.body), node)
+        if _negative(node.test):
+            node = ast.copy_location(ast.IfExp(test=_complement(node.test), body=node.orelse, orelse=node.body), node)
         return node
 
     def visit_If(self, node):
@@ -67,6 +80,8 @@ class Normaliser(ast.NodeTransformer):
         plain_else = node.orelse and not (len(node.orelse) == 1 and isinstance(node.orelse[0], ast.If))
         if plain_else and isinstance(node.test, ast.UnaryOp) and isinstance(node.test.op, ast.Not):
             node = ast.copy_location(ast.If(test=node.test.operand, body=node.orelse, orelse=node.body), node)
+        if plain_else and _negative(node.test):
+            node = ast.copy_location(ast.If(test=_complement(node.test), body=node.orelse, orelse=node.body), node)
         # N5
         if plain_else and len(node.body) == 1 and len(node.orelse) == 1 and isinstance(node.body[0], ast.Assign) and isinstance(node.orelse[0], ast.Assign):
             a, b = node.body[0], node.orelse[0]
